@@ -82,7 +82,10 @@ pub fn new_boxed<T: MaybeDynSized<Metadata = usize> + ?Sized>(
 /// Clones a [`MaybeDynSized`] by calling [`new_boxed`].
 #[must_use]
 pub fn clone_dyn<T: MaybeDynSized<Metadata = usize> + ?Sized>(tag: &T) -> Box<T> {
-    new_boxed(tag.header().clone(), &[tag.payload()])
+    // `payload()` includes the alignment padding of the allocation, which is
+    // not part of the tag: only clone the bytes the header accounts for.
+    let payload = &tag.payload()[..tag.header().payload_len()];
+    new_boxed(tag.header().clone(), &[payload])
 }
 
 #[cfg(test)]
